@@ -149,3 +149,12 @@ fn generate_aliases(completions: &mut String, preamble: &String, arg: &Arg) {
         }
     }
 }
+
+#[cfg(clap_verif)]
+pub(crate) fn verif_escape(kind: &str, s: &str) -> Option<String> {
+    match kind {
+        "powershell_string" => Some(escape_string(s)),
+        "powershell_help" => Some(escape_help(Some(&StyledStr::from(s.to_owned())), "")),
+        _ => None,
+    }
+}
